@@ -80,14 +80,41 @@ def _init(work, initfn):
         initfn()
 
 
+ITEM_BUDGET = 1800.0     # seconds; a normal item takes milliseconds to seconds
+
+
+class ItemTimeout(Exception):
+    pass
+
+
+def _item_alarm(signum, frame):
+    raise ItemTimeout()
+
+
 def _do_chunk(chunk):
+    import signal
     t = Tally()
     for item in chunk:
         try:
+            old = signal.signal(signal.SIGALRM, _item_alarm)
+            signal.setitimer(signal.ITIMER_REAL, ITEM_BUDGET)
+        except ValueError:
+            old = None
+        try:
             _WORK(item, t)
+        except ItemTimeout:
+            # the code under test made the item run away (e.g. state that grows
+            # from call to call): a verdict, not a harness problem
+            t.violation({"fingerprint": "item-did-not-finish",
+                         "what": "work item did not finish within %.0f s: %r" % (
+                             ITEM_BUDGET, repr(item)[:400]), "item": repr(item)[:2000]})
         except Exception as e:    # harness problem, never a verdict
             t.harness_errors.append(
                 "%s: %s\n%s" % (type(e).__name__, e, traceback.format_exc()[-1500:]))
+        finally:
+            if old is not None:
+                signal.setitimer(signal.ITIMER_REAL, 0)
+                signal.signal(signal.SIGALRM, old)
     return t
 
 
